@@ -69,6 +69,19 @@ CHECKS = {
         "intercepted by the sentinel); rows that hit them are counted in excluded_known.",
         "DESIGN.md 4/C08",
     ),
+    "C07": (
+        "exploration",
+        "grammar-based program generation (Hypothesis) x generated records, differential against an independent "
+        "reference evaluator (Python eval over the raw record, re-implemented helpers and Type matcher)",
+        "Well-typed selector programs over the documented language (every comparison operator also in chained "
+        "position, boolean operators, the six arithmetic/bit operators, membership, literals, helpers, constructors, "
+        "Type matchers, any/all generator expressions with if clauses and two for clauses, sibling generators reusing "
+        "a variable) are evaluated by Selector, CompiledSelector and the reference on generated records; constructs "
+        "outside the engine's tables must be rejected or mean the same.",
+        "Reference semantics of helpers/Type matcher re-implemented from their docstrings; expressions undefined in "
+        "Python are skipped; one listed known finding (bare constructors in the compiled engine).",
+        "DESIGN.md 4/C07",
+    ),
 }
 
 NOT_APPLICABLE = {}
